@@ -123,6 +123,42 @@ CHECKS = {
              'bounds, are non-decreasing when increasing, hit clamps, close cycles and map missing inputs to the missing output, that '
              'the documented call forms trace, and that CDF / cdf_fn outputs are in [0,1] and non-decreasing in every input.',
         note='Contracts: softmax positive summing to 1 and order preserving; sigmoid in (0,1), exp > 0, log: monotone.'),
+    'C03': dict(
+        engine=E1, design_ref='DESIGN.md 3/C03',
+        technique='whole real premade / stacked Keras models traced and executed symbolically; every trainable variable symbolic and assumed to satisfy the reference predicates of ITS OWN attached constraint object (history reduction through the Keras constraint contract + C01/C04/C06/C07); z3 QF_NRA for two input points',
+        text='For a catalogue of 12 models (calibrated linear, calibrated lattice with PWL/categorical/output calibration/KFL, ensembles '
+             'explicit / rtl_layer / linear combination, hand stacks) the solver decides over ALL constraint-satisfying weights and ALL '
+             'input pairs that the output is monotone as configured, respects categorical pairs and stays inside the output bounds. '
+             'Ensemble and output-calibration models are stretch in the quick tier (NRA), decided piecewise in the thorough tier.',
+        note='Keras applies constraints after each update and restores weights exactly (assumed); weights predicates are those decided by C01/C04/C06/C07.'),
+    'C11': dict(
+        engine=E1, design_ref='DESIGN.md 3/C11', category='model_checking',
+        technique='config round trip executed on a catalogue with every constructor argument non-default (ground); functional half: original and rebuilt layer/model both traced, same symbolic weights, z3 decides equality of outputs and of weight constraints',
+        text='For every public class with get_config the rebuilt object has an equal config and loses no constructor argument; for 10 '
+             'layer configurations and 4 premade models the rebuilt object has the same variables and, for ALL weights and inputs, '
+             'identical outputs and identical weight-constraint results.',
+        note='The structural half is plain execution (no numeric quantifier); checkpoint file formats are assumed to restore values exactly.'),
+    'C16': dict(
+        engine=E1, design_ref='DESIGN.md 3/C16',
+        technique='constructor cross products executed (ValueError = rejected); for every accepted configuration symbolic execution with fraction lifting and z3 decides that no output can be undefined; synonyms by equality of traced graphs; CrossHair on canonicalize_*',
+        text='A table of 44 must-reject situations is rejected up front; for ~400 accepted Lattice/PWL/Linear/categorical/KFL configurations '
+             'over small argument domains (incl. equal bounds, zero input ranges, cyclic orderings) the weight constraint and forward pass '
+             'are total for ALL finite weights and inputs; synonymous spellings give identical behaviour.',
+        note='Overflow is outside; argument domains are small and enumerated.'),
+    'C17': dict(
+        engine='crosshair-ast', design_ref='DESIGN.md 3/C17',
+        technique='CrossHair (symbolic execution of Python with z3, "Confirmed over all paths") on the real structure builders cut out of /repo with ast, RNG replaced by symbolic permutations/choices; Crystals on the symreal path-forking executor with symbolic scores',
+        text='For the bounded feature/lattice counts, EVERY shuffle / choice sequence yields an RTL arrangement, random ensemble and pairs '
+             'cover with the stated invariants (rank filled, every feature used, usage counts within one, monotone wiring, no repeats, '
+             'all pairs covered); Crystals: for ALL non-negative torsion/Laplacian scores every lattice has exactly lattice_rank features.',
+        note='RNG contract: shuffle returns a permutation, choice returns element(s) of its argument.'),
+    'C18': dict(
+        engine='symreal', design_ref='DESIGN.md 3/C18',
+        technique='the real compute_keypoints / _weighted_quantile run on a path-forking executor over z3 reals with a validated NumPy model bound to the installed NumPy signatures; after exhausting all paths z3 decides the postcondition per path',
+        text='For all real data arrays of length 2-4(5), symbolic positive weights, clip bounds and default value, both modes and '
+             'reductions, num_keypoints 2-4: keypoints are strictly increasing, inside the clipped range with the right end points, of '
+             'the right count, and no exception escapes (incl. API drift of the installed NumPy).',
+        note='Exact real arithmetic for quantile positions; concrete quantile grids use NumPy float rounding.'),
 }
 
 NOT_YET = 'check not built yet in this round (work in progress, see DESIGN.md)'
@@ -158,7 +194,7 @@ def main():
       engines=[
           dict(name='symgraph', path='vf/interp.py', serves_properties=sorted(k for k, v in CHECKS.items() if v['engine'] == E1),
                kind_free_text='symbolic interpreter for TensorFlow graphs traced from the real tensorflow_lattice code (numpy object arrays of z3 terms / exact rationals, fraction lifting, contract stubs) + z3'),
-          dict(name='crosshair-ast', path='vf/e2', serves_properties=sorted(k for k, v in CHECKS.items() if v['engine'] == 'crosshair-ast'),
+          dict(name='crosshair-ast', path='vf/e2', serves_properties=sorted(k for k, v in CHECKS.items() if v['engine'] == 'crosshair-ast') + ['C16'],
                kind_free_text='CrossHair symbolic execution of pure-Python functions cut out of /repo with ast; RNG replaced by symbolic permutations'),
           dict(name='symreal', path='vf/e3', serves_properties=sorted(k for k, v in CHECKS.items() if v['engine'] == 'symreal'),
                kind_free_text='path-forking executor over z3 Reals with a validated pure-Python NumPy model, for NumPy-on-floats code'),
